@@ -51,6 +51,13 @@ def main():
     for fi in m.all_funcs():
       if fi.node.name in words:
         seen.add((m.relpath, fi.qualname))
+  # reference fingerprints for private renames (sa/renames.py)
+  import ast  # pylint: disable=g-import-not-at-top
+  from sa import renames  # pylint: disable=g-import-not-at-top
+  trees = {rel: ast.parse(m.src) for rel, m in repo.modules.items()}
+  with open(os.path.join(base, 'sa', 'reference.json'), 'w',
+            encoding='utf-8') as f:
+    json.dump(renames.describe(trees), f, indent=0, sort_keys=True)
   out = sorted(seen)
   path = os.path.join(os.path.dirname(os.path.dirname(os.path.abspath(
       __file__))), 'sa', 'anchors.json')
